@@ -88,6 +88,7 @@ def run(ck):
     mod = run_cases(model, cases + mcases, timeout=900)
     mod_by = dict(zip(cases + mcases, mod))
     ck.evaluations += len(allc)
+    k_reported = False
     for c, r in zip(allc, impl):
         d = parse(r) if r.startswith("IDS") else {}
         kind = c.split("\t")[1]
@@ -114,8 +115,10 @@ def run(ck):
         if d["MOVED"] != "0" or d["LOST"] != "0" or d["STALE"] != "0":
             ck.violation("interner broke a handle: MOVED=%s LOST=%s STALE=%s on %s" % (d["MOVED"], d["LOST"], d["STALE"], c[:200]),
                          {"mode": "intern", "harness_case": c[:100000], "expected": "MOVED 0 LOST 0 STALE 0"})
-            break
-        if c in mod_by and r != mod_by[c]:
+            if sum(1 for v in ck.violations if not v[2]) >= 3:
+                break
+        if c in mod_by and r != mod_by[c] and not k_reported:
+            k_reported = True
             m = parse(mod_by[c])
             if m.get("IDS") != d["IDS"]:
                 ck.violation("same-text/same-handle relation differs from the model: impl IDS %s model IDS %s on %s" % (d["IDS"][:80], m.get("IDS", "")[:80], c[:200]),
@@ -123,5 +126,4 @@ def run(ck):
             else:
                 ck.violation("correspondence of buffer layout: impl %s model %s" % (r[:200], mod_by[c][:200]),
                              {"correspondence": "Interner.intern vs BytesInterner::intern (layout)", "harness_case": c[:100000]}, no_input=True)
-            break
     return ck
